@@ -310,6 +310,14 @@ func runC07(c *Ctx) {
 		b58dec(c, mb+s)
 		chkdec(c, s[:p]+mb+s[p:])
 	}
+	// Base58Check strings that decode to fewer than five bytes, the last four being the checksum of the rest
+	for n := 0; n <= 3; n++ {
+		body := randBytes(r, n)
+		full := append(append([]byte{}, body...), sha256d(body)[:4]...)
+		chkdec(c, base58Ref(full))
+		b58dec(c, base58Ref(full))
+	}
+	chkdec(c, base58Ref(sha256d(nil)[:4]))
 	// --- Base58Check: every version, payload lengths 0..40, decode of valid /
 	// corrupted / short strings
 	for k := 0; k < c.Pick(400, 4000); k++ {
@@ -387,6 +395,29 @@ func runC07(c *Ctx) {
 		}
 		if k%12 == 0 {
 			b32CaseFlips(c, s)
+		}
+		if k%20 == 3 { // longer than 90 characters with a valid checksum (the data part grows)
+			for _, extra := range []int{1, 2, 17, 40, 120} {
+				long := make([]byte, maxd+extra)
+				for i := range long {
+					long[i] = byte(r.Intn(32))
+				}
+				b32dec(c, refBech32Const(hrp, long, 1))
+			}
+		}
+		if k%9 == 4 { // a foreign character wherever the symbol of value 0 ('q') or 31 ('l') stands
+			sep := strings.LastIndex(s, "1")
+			for i := sep + 1; i < len(s); i++ {
+				if s[i] == 'q' || s[i] == 'l' {
+					for _, fc := range []byte{'b', 'i', 'o', '!', '{', '~', '_'} {
+						b32dec(c, s[:i]+string(fc)+s[i+1:])
+					}
+				}
+			}
+			for _, fc := range []byte{'{', '|', '}', '~', '`', '@', '[', '^'} { // characters beyond 'z' / around the letters
+				p := sep + 1 + r.Intn(len(s)-sep-1)
+				b32dec(c, s[:p]+string(fc)+s[p+1:])
+			}
 		}
 		if k%25 == 0 {
 			for _, w := range wsWraps(s) {
